@@ -493,6 +493,11 @@ class WrapperForwards:
 for _w in ("get_exc", "get_vxc"):
     register(Obligation(name=f"C02.{_w}.forwards_every_argument", prop=PROP, engine="Z", functions=[f"eminus.xc.utils:{_w}", "eminus.xc.utils:get_xc"], run=WrapperForwards(_w),
                         assumes=("engineZ",), doc=f"{_w} hands xc, densities, Nspin, gradients, tau, xc_params and the density threshold on to get_xc and returns its components"))
+    # the same wrapper contracts are links in the chains of two other properties: H_precompute -> get_vxc (the potential the gradient of C01 is built from) and
+    # get_exc / get_vxc as entry points of the built-in functionals that C09 compares with Libxc
+    for _p in ("C01", "C09"):
+        register(Obligation(name=f"{_p}.{_w}.forwards_every_argument", prop=_p, engine="Z", functions=[f"eminus.xc.utils:{_w}", "eminus.xc.utils:get_xc"], run=WrapperForwards(_w),
+                            assumes=("engineZ",), doc=f"{_w} hands every argument (xc_params included) on to get_xc and returns its components (same contract as C02.{_w}.forwards_every_argument)"))
 
 
 # ------------------------------------------------------------------------------------------------
